@@ -285,6 +285,28 @@ def run(ctx, name, kind, **kw):
         jobs.append(("remove_integer_bad", lambda s: _expect_der_error(der.remove_integer, s), (b"\x02\x02\x00\x01",), "UnexpectedDER"))
         S.concurrent_purity(ctx, S.codes_of(der), jobs, rng, kw["runs"])
         S.reentrant_purity(ctx, S.codes_of(der), jobs, rng, max(12, kw["runs"] // 6))
+        # memo pressure: one thread repeats a call it made before (the path a memo serves) and is suspended at each of its yield
+        # points in turn while another thread makes MANY distinct calls (enough to turn over any bounded memo), then resumes
+        many = [(1, 3, 6, 1, 4, 1, 40000 + i, i % 7) for i in range(1300)]
+        want_many = [R.enc_oid(o) for o in many]
+        rep = [(1, 2, 840, 10045, 3, 1, 7), (1, 3, 132, 0, 34), (2, 5, 4, 3)]
+
+        def bulk():
+            return [der.encode_oid(*o) for o in many] == want_many
+
+        def bulk_ints():
+            return all(der.encode_integer(v) == R.enc_int(v) and der.remove_integer(R.enc_int(v))[0] == v for v in range(70000, 71300))
+        pj = [("encode_oid_repeated", lambda o=o: (der.encode_oid(*o), der.encode_oid(*o))[1], (), R.enc_oid(o)) for o in rep]
+        pj += [("remove_object_repeated", lambda o=o: _norm(der.remove_object(R.enc_oid(o)))[0], (), o) for o in rep[:1]]
+        pj += [("encode_integer_repeated", lambda: (der.encode_integer(65537), der.encode_integer(65537))[1], (), R.enc_int(65537))]
+        nsmall = len(pj)
+        pj += [("bulk_encode_oid", bulk, (), True), ("bulk_integers", bulk_ints, (), True)]
+        for o in rep:
+            der.encode_oid(*o)
+        codes_st = S.stateful_codes(der) or S.codes_of(der, {"encode_oid", "encode_integer", "remove_object", "remove_integer"})
+        ctx.count("stateful_functions_in_der", len(S.stateful_codes(der)))
+        S.first_use_systematic(ctx, lambda M: codes_st, lambda M: pj, rng, 4 if kw["runs"] < 1000 else 20, cls="memo_pressure", fresh=False,
+                               pick=lambda jobs, r: (r.randrange(nsmall), nsmall + r.randrange(2)))
     elif kind == "subid":
         # read_number / encode_number (base-128 sub-identifiers): exhaustive over all inputs of <= 2 bytes and 3-byte inputs
         # with a continuation prefix; round trip for structured values
